@@ -15,6 +15,7 @@ const TOMB_BITS: u64 = 0x7ff8_0000_0000_0002;
 const EMPTY_CHAR: char = '\u{2ffff}';
 const TOMB_CHAR: char = '\u{2fffe}';
 const NAN_CODE: u64 = 999;
+const NEGZERO_CODE: u64 = 1000;
 
 #[derive(Clone, Debug, PartialEq)]
 enum Op {
@@ -634,6 +635,85 @@ impl Exh<'_> {
     }
 }
 
+/// fixed regression corpus: the histories that exposed the defects repaired by d33ad92 (NaN key),
+/// 1d73a86 (drop of every row), ca07ac6 (join with several shared keys), 5017b06 (map from
+/// keys with several repetitions); universes of 4 keys, key 2 of class "nan" is NaN
+fn corpus() -> Vec<(&'static str, &'static str)> {
+    vec![
+        ("nan", "i0=14 i1=15 i3=16 g2 h2 u"),
+        ("nan", "i0=14 i1=15 i3=16 i2=17 u g2 h2 n"),
+        ("nan", "i0=10 r2 u g0"),
+        ("nan", "i0=10 r2 i1=11 i3=12 u"),
+        ("nan", "j0=30 g2"),
+        ("nan", "j3=24,0=20 g2 h2"),
+        ("nan", "i2=10 g2 h2 r2 g2 h2 i2=11 i2=12 u"),
+        ("nan", "i0=10 i2=11 i1=12 i3=13 r2 i2=14 u v o1 t3 d1 u"),
+        ("int", "i3=14 d1 u n h3"),
+        ("int", "i3=14 i1=16 d2 u i0=10 u"),
+        ("int", "i0=10 d1 i1=11 g1 u"),
+        ("int", "i0=10 i1=11 d5 u i2=12 u"),
+        ("char", "i0=10 d1 u"),
+        ("str", "i19=11 i2=15 d2 u"),
+        ("box", "i0=10 d1 u"),
+        ("int", "i0=14 i1=15 i2=16 j0=27,1=28 u g2 g0 g1"),
+        ("int", "j0=20,1=21 j0=20,1=21 u"),
+        ("int", "i0=1 i1=2 i2=3 i3=4 j0=27,2=28 u g1 g3"),
+        ("int", "i0=1 i1=2 i2=3 i3=4 j3=27,1=28,0=29 u g2"),
+        ("char", "j0=20,1=21 j0=20,1=21 u"),
+        ("str", "j0=20,1=21 j0=20,1=21 u"),
+        ("box", "j0=20,1=21 j0=20,1=21 u"),
+        ("int", "j0=30,1=31,1=32,0=33 u g0 g1"),
+        ("int", "j1=10,2=20,2=30,1=40 u"),
+        ("int", "j0=1,1=2,2=3,2=4,1=5,0=6 u"),
+        ("negzero", "i0=10 i1=11 u g0 g1 r0 u i1=12 u h0"),
+        ("negzero", "j0=30,1=31,2=32 u j1=33,0=34 u"),
+    ]
+}
+
+/// run one fixed history through the interpreter and the Value API, every observer after every step
+fn run_corpus(f: &mut Findings, evals: &mut usize) -> usize {
+    let env = Uiua::with_safe_sys();
+    let mut n = 0;
+    for (cname, hist) in corpus() {
+        let ops = parse_hist(hist);
+        let nk = ops.iter().map(max_key).max().unwrap_or(0).max(3) + 1;
+        let cl = class(cname, nk);
+        let mut m = empty_map();
+        let mut a: AList = Vec::new();
+        let mut h: Vec<Op> = Vec::new();
+        n += 1;
+        for op in &ops {
+            h.push(op.clone());
+            *evals += 2;
+            let (m2, out) = apply_interp(&cl, &m, op);
+            let (m3, out3) = apply_api(&env, &cl, &m, op);
+            let (a2, want) = spec_step(&cl, &a, op);
+            let mut bad = None;
+            if out == Out::Err(RECURSE.into()) {
+                bad = Some(format!("{} would never return: {RECURSE}; {}", show_op(op), confirm_crash(&cl, &h)));
+            } else if !out_matches(&out, &want) {
+                bad = Some(format!("{} outputs {} but the association list gives {}", show_op(op), show_out(&out), show_out(&want)));
+            } else if !out_matches(&out3, &out) || m2.as_ref().map(state_sig) != m3.as_ref().map(state_sig) {
+                bad = Some(format!("interpreter and Value API disagree on {}", show_op(op)));
+            }
+            let m2 = m2.unwrap_or_else(|| m.clone());
+            if bad.is_none() && !matches!(out, Out::Err(_)) {
+                bad = observe(&env, &cl, &m2, &a2, evals).err();
+            }
+            if let Some(detail) = bad {
+                f.add(violation_key(&cl, &h, &a, &detail), &cl, &h, detail);
+                break;
+            }
+            if matches!(out, Out::Err(_)) {
+                break;
+            }
+            m = m2;
+            a = a2;
+        }
+    }
+    n
+}
+
 fn mutators(nkeys: usize, nvals: usize) -> Vec<Op> {
     let mut v = Vec::new();
     for k in 0..nkeys {
@@ -652,6 +732,8 @@ fn mutators(nkeys: usize, nvals: usize) -> Vec<Op> {
     }
     v.push(Op::Join(vec![(0, 20), (1, 21)]));
     v.push(Op::Join(vec![(nkeys - 1, 22)]));
+    // repeated keys in the joined map's key list, two of them possibly present already
+    v.push(Op::Join(vec![(1, 23), (2, 24), (2, 25), (1, 26)]));
     v
 }
 
@@ -667,7 +749,9 @@ fn key_code(v: &Value) -> Option<u64> {
             let x = a.data()[0];
             if x.is_nan() {
                 Some(NAN_CODE)
-            } else if x >= 0.0 && x.fract() == 0.0 && x < 900.0 && !(x == 0.0 && x.is_sign_negative()) {
+            } else if x == 0.0 && x.is_sign_negative() {
+                Some(NEGZERO_CODE)
+            } else if x >= 0.0 && x.fract() == 0.0 && x < 900.0 {
                 Some(x as u64)
             } else {
                 None
@@ -769,15 +853,10 @@ fn gen_op(r: &mut Rng, nkeys: usize, rows: usize, all: bool) -> Op {
         15 => Op::Drop(if rows > 1 { r.below(rows) } else { 0 }),
         16 => Op::Drop(r.below(rows + 2)),
         17 => {
-            // join with a map of distinct keys, at most one of which may already be present
-            let n = 1 + r.below(3);
-            let mut l: Vec<(usize, usize)> = Vec::new();
-            for _ in 0..n {
-                let k = r.below(nkeys);
-                if !l.iter().any(|p| p.0 == k) {
-                    l.push((k, 20 + r.below(8)));
-                }
-            }
+            // join with a map built from a key list that may repeat keys and share keys with the map
+            let n = 1 + r.below(5);
+            let small = r.chance(1, 2);
+            let l: Vec<(usize, usize)> = (0..n).map(|_| (if small { r.below(nkeys.min(4)) } else { r.below(nkeys) }, 20 + r.below(8))).collect();
             Op::Join(l)
         }
         _ => Op::Ins(k, 10 + r.below(8)),
@@ -795,6 +874,12 @@ fn main() {
         "exh" => {
             let env = Uiua::with_safe_sys();
             let classes = ["int", "char", "nan", "negzero", "str", "box"];
+            // the regression corpus runs first
+            let mut f = Findings::default();
+            let mut evals = 0usize;
+            let nc = run_corpus(&mut f, &mut evals);
+            println!("{{\"phase\":\"corpus\",\"histories\":{nc},\"evaluations\":{evals}}}");
+            f.print(4);
             // construction of maps from key lists with repetitions
             let mut f = Findings::default();
             let mut evals = 0usize;
@@ -880,26 +965,12 @@ fn main() {
                 let cname = ["int", "char", "negzero", "str", "box", "nan"][hi % 6];
                 let nkeys = [6usize, 24, 60][(hi / 6) % 3];
                 let cl = class(cname, nkeys);
-                // known defect classes are kept out of the long random histories so that they run to full length
-                let avoid_known = hi % 4 != 3;
                 let mut m = empty_map();
                 let mut a: AList = Vec::new();
                 let mut h: Vec<Op> = Vec::new();
                 let use_interp = hi % 10 == 0;
                 for _ in 0..a3 {
-                    let mut op = gen_op(&mut rng, nkeys, a.len(), true);
-                    if avoid_known {
-                        let nan_used = |k: &usize| cl.nan == Some(*k);
-                        let risky = match &op {
-                            Op::Drop(n) => *n >= a.len() && !a.is_empty(),
-                            Op::Join(l) => l.iter().filter(|p| a_pos(&a, &cl.keys[p.0]).is_some()).count() >= 2 || l.iter().any(|p| nan_used(&p.0)),
-                            Op::Ins(k, _) | Op::Rem(k) | Op::Get(k) | Op::Has(k) => nan_used(k),
-                            _ => false,
-                        };
-                        if risky {
-                            op = Op::Len;
-                        }
-                    }
+                    let op = gen_op(&mut rng, nkeys, a.len(), true);
                     h.push(op.clone());
                     steps += 1;
                     evals += 1;
@@ -977,11 +1048,16 @@ fn main() {
 
 fn tie(rng: &mut Rng, n: usize, maxlen: usize) {
     let env = Uiua::with_safe_sys();
-    for hi in 0..n {
-        let cname = ["int", "char", "int", "nan", "char", "int", "nan", "int"][hi % 8];
-        let nkeys = [4usize, 12, 40][(hi / 8) % 3];
+    // the regression corpus first (the classes the model instance can render), then random histories
+    let fixed: Vec<(&'static str, Vec<Op>)> = corpus().into_iter().filter(|c| matches!(c.0, "int" | "char" | "nan" | "negzero")).map(|(c, h)| (c, parse_hist(h))).collect();
+    for hi in 0..n.max(fixed.len()) {
+        let (cname, nkeys, len) = if hi < fixed.len() {
+            let nk = fixed[hi].1.iter().map(max_key).max().unwrap_or(0).max(3) + 1;
+            (fixed[hi].0, nk, fixed[hi].1.len())
+        } else {
+            (["int", "char", "nan", "negzero"][hi % 4], [4usize, 12, 40][(hi / 4) % 3], 1 + rng.below(maxlen))
+        };
         let cl = class(cname, nkeys);
-        let len = 1 + rng.below(maxlen);
         let mut m = empty_map();
         let mut obs: Vec<String> = Vec::new();
         let mut h: Vec<Op> = Vec::new();
@@ -989,23 +1065,18 @@ fn tie(rng: &mut Rng, n: usize, maxlen: usize) {
         let mut problem: Option<String> = None;
         let mut errors = 0usize;
         let mut corrupt = 0usize;
-        let mut alist: AList = Vec::new();
+        let mut step = 0usize;
         let mut rows = 0usize;
         for _ in 0..len {
-            let mut op = gen_op(rng, nkeys, rows, true);
-            // three histories in four stay clear of the known defects (so that they run long and the
-            // table grows); the fourth walks into them and is compared up to the corrupting step
-            if hi % 4 != 3 && cl.nan.is_none() {
-                let risky = match &op {
-                    Op::Drop(n) => *n >= alist.len() && !alist.is_empty(),
-                    Op::Join(l) => l.iter().filter(|p| a_pos(&alist, &cl.keys[p.0]).is_some()).count() >= 2,
-                    _ => false,
-                };
-                if risky {
-                    op = Op::Unmap;
+            let op = if hi < fixed.len() {
+                if step >= fixed[hi].1.len() {
+                    break;
                 }
-            }
-            alist = spec_step(&cl, &alist, &op).0;
+                fixed[hi].1[step].clone()
+            } else {
+                gen_op(rng, nkeys, rows, true)
+            };
+            step += 1;
             h.push(op.clone());
             if std::env::var("VERIF_TRACE").is_ok() {
                 eprintln!("{hi} {cname} {}", show_hist(&h));
@@ -1064,7 +1135,8 @@ fn tie(rng: &mut Rng, n: usize, maxlen: usize) {
             problem = Some(format!("capacity {max_cap} is not a power of two"));
         }
         println!(
-            "{{\"id\":{hi},\"class\":{},\"nkeys\":{nkeys},\"nan\":{},\"tbl\":{},\"he\":\"{he}\",\"ht\":\"{ht}\",\"obs\":{},\"steps\":{},\"errors\":{errors},\"corrupt\":{corrupt},\"max_capacity\":{max_cap},\"history\":{},\"problem\":{}}}",
+            "{{\"id\":{hi},\"corpus\":{},\"class\":{},\"nkeys\":{nkeys},\"nan\":{},\"tbl\":{},\"he\":\"{he}\",\"ht\":\"{ht}\",\"obs\":{},\"steps\":{},\"errors\":{errors},\"corrupt\":{corrupt},\"max_capacity\":{max_cap},\"history\":{},\"problem\":{}}}",
+            hi < fixed.len(),
             jstr(cname),
             if cl.nan.is_some() { NAN_CODE.to_string() } else { "null".into() },
             jstr(&format!("[{}]%N", tbl.join("; "))),
